@@ -518,6 +518,11 @@ static int writer_dump_object_index(struct reftable_writer *w)
 	if (w->obj_index_tree) {
 		infix_walk(w->obj_index_tree, &update_common, &common);
 	}
+	if (common.max + 1 >= (1 << 5)) {
+		/* The footer stores the ID length in 5 bits. Without an
+		   object index, readers scan the refs linearly. */
+		return 0;
+	}
 	w->stats.object_id_len = common.max + 1;
 
 	writer_reinit_block_writer(w, BLOCK_TYPE_OBJ);
